@@ -4,12 +4,46 @@ from fractions import Fraction
 
 VERIF = os.path.dirname(os.path.dirname(os.path.abspath(__file__)))
 REPO = os.environ.get("VERIF_REPO", "/repo")
-OUT = os.path.join(VERIF, "out")
-WORK = os.path.join(VERIF, ".work")
-HARNESS = os.path.join(VERIF, "harness", "qexec")
 TABLES = os.path.join(VERIF, "tables")
-EVIDENCE = os.path.join(VERIF, "evidence")
-NCPU = os.cpu_count() or 4
+NCPU = int(os.environ.get("VERIF_NCPU", "0")) or os.cpu_count() or 4
+# The registered checks always work on /repo. For experiments (mutation sweeps) another checkout can be
+# named with VERIF_REPO: everything derived from it (harness copy with the path dependency rewritten,
+# cargo target dirs, generated crates, replay files, evidence) then lives under .work/alt-<tag>/ so that
+# such runs never touch the evidence or caches of the real checks and can run concurrently.
+ALT = os.path.abspath(REPO) != "/repo"
+if not ALT:
+    OUT = os.path.join(VERIF, "out")
+    WORK = os.path.join(VERIF, ".work")
+    HARNESS = os.path.join(VERIF, "harness", "qexec")
+    EVIDENCE = os.path.join(VERIF, "evidence")
+else:
+    _tag = hashlib.sha1(os.path.abspath(REPO).encode()).hexdigest()[:8]
+    WORK = os.path.join(VERIF, ".work", "alt-" + _tag)
+    OUT = os.path.join(WORK, "out")
+    EVIDENCE = os.path.join(WORK, "evidence")
+    HARNESS = os.path.join(WORK, "harness", "qexec")
+
+
+def ensure_alt_harness():
+    """Copy of harness/qexec whose path dependencies point at VERIF_REPO (no-op for /repo)."""
+    if not ALT:
+        return
+    import shutil
+    src = os.path.join(VERIF, "harness", "qexec")
+    os.makedirs(os.path.dirname(HARNESS), exist_ok=True)
+    for root, dirs, files in os.walk(src):
+        dirs[:] = [d for d in dirs if d != "target"]
+        rel = os.path.relpath(root, src)
+        os.makedirs(os.path.join(HARNESS, rel), exist_ok=True)
+        for f in files:
+            sp, dp = os.path.join(root, f), os.path.join(HARNESS, rel, f)
+            data = open(sp, "rb").read()
+            if f == "Cargo.toml":
+                data = data.replace(b'path = "/repo/', ('path = "%s/' % os.path.abspath(REPO)).encode()).replace(
+                    b'path = "/repo"', ('path = "%s"' % os.path.abspath(REPO)).encode())
+            if not os.path.exists(dp) or open(dp, "rb").read() != data:
+                with open(dp, "wb") as fh:
+                    fh.write(data)
 
 MASK = (1 << 64) - 1
 
